@@ -483,6 +483,20 @@ impl World {
         Snap { parts, text }
     }
 
+    async fn safe_view(&self, p: usize) -> String {
+        match AssertUnwindSafe(self.public_view(p)).catch_unwind().await {
+            Ok(v) => v.chars().take(400).collect::<String>(),
+            Err(payload) => {
+                let (loc, msg) = take_panic_info().unwrap_or_default();
+                if loc.is_empty() || loc.contains("/verif/") {
+                    resume_unwind(payload);
+                }
+                ctx::probe("query_panicked");
+                format!("query API panicked at {loc}: {} (queries are not part of C39)", shorten(msg))
+            }
+        }
+    }
+
     /// What the public query API (`Manager::space`, `Space::members`, `Manager::group`,
     /// `Group::members`, `spaces_repair_required`) shows. It is a function of the stored state the
     /// snapshot hashes, so it is only computed for explanations (≈ 50 store round trips).
@@ -618,7 +632,8 @@ impl World {
         if &after != before {
             let d = before.diff(&after);
             if counted {
-                violation("redelivery-changes-state", kind, format!("P{p} ({who}) processed {} a second time and its state changed: {}", self.msg_label(mi), shorten(d.join("; "))));
+                let view = self.safe_view(p).await;
+                violation("redelivery-changes-state", kind, format!("P{p} ({who}) processed {} a second time and its stored state changed in: {}; queries afterwards: {view}", self.msg_label(mi), shorten(d.join("; "))));
             } else {
                 ev!("state changed on re-delivery of a message that was rejected the first time: {}", shorten(d.join("; ")));
             }
@@ -923,6 +938,59 @@ impl World {
                 let d = format!("SpaceUpdate {{ space {}, group {}, deps {how} }}", self.space_label(&space_id), self.actor_label(&group_id));
                 (SpacesArgs::SpaceUpdate { space_id, group_id, space_dependencies }, d)
             }
+            1 if ctx::chance("byz.auth.plausible", 1, 2) => {
+                // An action the forger is entitled to: it manages the group, the target is a member
+                // (or, for Add, possibly not yet), the dependencies are the forger's auth heads.
+                // Promote / Demote are valid p2panda-auth actions no spaces API ever emits.
+                let me = self.peers[p].id;
+                let manager = self.peers[p].tp.manager.clone();
+                let groups = self.groups.clone();
+                let probe = async {
+                    let mut managed: Vec<(VerifyingKey, Vec<VerifyingKey>)> = vec![];
+                    for gid in groups {
+                        if let Ok(Some(g)) = manager.group(gid).await {
+                            if let Ok(m) = g.members().await {
+                                if m.iter().any(|(id, a)| *id == me && a.is_manage()) {
+                                    managed.push((gid, m.iter().map(|x| x.0).collect()));
+                                }
+                            }
+                        }
+                    }
+                    managed
+                };
+                let managed = match AssertUnwindSafe(probe).catch_unwind().await {
+                    Ok(m) => m,
+                    Err(_) => {
+                        let _ = take_panic_info();
+                        ctx::probe("query_panicked");
+                        vec![]
+                    }
+                };
+                if managed.is_empty() {
+                    return None;
+                }
+                let (group_id, members) = ctx::pick("byz.managed", &managed).clone();
+                let others: Vec<VerifyingKey> = members.iter().copied().filter(|m| *m != me).collect();
+                let target = if others.is_empty() { me } else { *ctx::pick("byz.target", &others) };
+                let member = GroupMember::Individual(target);
+                let action = match ctx::choose("byz.entitled.action", 4) {
+                    0 => GroupAction::Promote { member, access: draw_access("byz.access") },
+                    1 => GroupAction::Demote { member, access: draw_access("byz.access") },
+                    2 => GroupAction::Remove { member },
+                    _ => GroupAction::Add { member: GroupMember::Individual(self.draw_actor("byz.member")), access: draw_access("byz.access") },
+                };
+                let auth_dependencies = self.heads_where(p, |m| matches!(&m.op.header.extensions, SpacesArgs::Auth { .. }));
+                let a = match &action {
+                    GroupAction::Add { member, access } => format!("Add({}, {})", self.actor_label(&member.id()), access_name(access)),
+                    GroupAction::Remove { member } => format!("Remove({})", self.actor_label(&member.id())),
+                    GroupAction::Promote { member, access } => format!("Promote({}, {})", self.actor_label(&member.id()), access_name(access)),
+                    GroupAction::Demote { member, access } => format!("Demote({}, {})", self.actor_label(&member.id()), access_name(access)),
+                    GroupAction::Create { .. } => unreachable!(),
+                };
+                ctx::probe("forged_entitled_auth_action");
+                let d = format!("Auth {{ group {} (managed by the forger), {a}, deps heads }}", self.actor_label(&group_id));
+                (SpacesArgs::Auth { group_id, group_action: action, auth_dependencies }, d)
+            }
             1 => {
                 let group_id = self.draw_actor("byz.group");
                 let action = match ctx::choose("byz.action", 5) {
@@ -1192,6 +1260,13 @@ async fn scenario(mode: u32) {
         }
     }
 
+    if let Ok(dir) = std::env::var("C39_DUMP") {
+        let mut t = String::new();
+        for (i, m) in w.msgs.iter().enumerate() {
+            t.push_str(&format!("m{i} {} {:?}\n", m.op.hash, m.op.header));
+        }
+        let _ = std::fs::write(format!("{dir}/{}.msgs", ctx::seed()), t);
+    }
     // Summary.
     let mut kinds: BTreeMap<&'static str, usize> = BTreeMap::new();
     for m in &w.msgs {
@@ -1208,17 +1283,8 @@ async fn scenario(mode: u32) {
         if w.peers[p].dead {
             continue;
         }
-        match AssertUnwindSafe(w.public_view(p)).catch_unwind().await {
-            Ok(v) => ev!("P{p} final: {}", v.chars().take(400).collect::<String>()),
-            Err(payload) => {
-                let (loc, msg) = take_panic_info().unwrap_or_default();
-                if loc.is_empty() || loc.contains("/verif/") {
-                    resume_unwind(payload);
-                }
-                ev!("query API of P{p} panicked at {loc}: {} (not part of C39)", shorten(msg));
-                ctx::probe("query_panicked");
-            }
-        }
+        let v = w.safe_view(p).await;
+        ev!("P{p} final: {v}");
     }
     for p in &w.peers {
         p.tp.store.pool().close().await;
@@ -1278,5 +1344,9 @@ impl Property for C39Prop {
     fn run(&self) {
         let mode = ctx::mode();
         stepexec::block_on(scenario(mode));
+        if let Ok(dir) = std::env::var("C39_DUMP") {
+            let t = ctx::with(|c| c.trace.join("\n"));
+            let _ = std::fs::write(format!("{dir}/{}.txt", ctx::seed()), t);
+        }
     }
 }
